@@ -37,7 +37,7 @@ man = {
  'version': 1,
  'setup_cmd': './setup.sh',
  'hooks': {
-   'guard': 'cfg(kani) for proof modules, container swap and support code; cfg(reinterpretcat_vrp_verif) for four accessors used only by the native replay binary (schedule caches, load caches, one step of the variation criterion, the collection flavour of the insertion evaluator)',
+   'guard': 'cfg(kani) for proof modules, container swap and support code; cfg(reinterpretcat_vrp_verif) for six accessors used only by the native replay binary (schedule caches, load caches, one step of the variation criterion, the collection flavour of the insertion evaluator, the insertion step and its finalisation)',
    'enable': 'cargo kani sets --cfg kani; /verif/lib/mir_replay.py builds /verif/replay with RUSTFLAGS=--cfg reinterpretcat_vrp_verif; no other build sees the hooks',
    'baseline_off_cmd': 'cd /repo && cargo nextest run --workspace --no-fail-fast --test-threads 8 --offline || cargo test --workspace --no-fail-fast --offline',
    'source_commits': hook_commits,
